@@ -271,6 +271,9 @@ func ToInteger(p Primary) Primary {
 			return NewInteger(i)
 		}
 		if f, e := strconv.ParseFloat(s, 64); e == nil {
+			if math.IsNaN(f) || math.IsInf(f, 0) {
+				return NewNull()
+			}
 			return NewInteger(int64(f))
 		}
 	}
